@@ -1265,7 +1265,10 @@ class IMAPClientCommand:
         # Is this a list? If so, parse our list of flags.
         #
         if self._p_simple_string("(", silent=True, swallow=False):
-            return self._p_paren_list_of(self._p_fetch_att)
+            fetch_atts = self._p_paren_list_of(self._p_fetch_att)
+            if not fetch_atts:
+                raise BadSyntax(value="the list of FETCH attributes is empty")
+            return fetch_atts
         else:
             # See if we have one of the three defined fetch att macros.
             # If we do we will just by hand create our list of fetch atts
@@ -1471,17 +1474,29 @@ class IMAPClientCommand:
         # So, see if we have a list of numbers separated by '.'
         #
         sect_list: list[int | str | tuple[str, list[str]]] = []
-        try:
-            while True:
-                sect_list.append(int(self._p_re(_number_re)))
-                self._p_simple_string(".")
-        except NoMatch:
-            pass
+        after_dot = False
+        while True:
+            num = self._p_re(_number_re, silent=True)
+            if num is None:
+                break
+            if int(num) < 1:
+                raise BadSyntax(value="body part numbers start at 1")
+            sect_list.append(int(num))
+
+            # A part number is followed by '.' and more of the section, or
+            # it was the last element of the section.
+            #
+            after_dot = self._p_simple_string(".", silent=True) is not None
+            if not after_dot:
+                self._p_simple_string("]")
+                return sect_list
 
         # At this point if the next character is ']' then we are at the
         # end of our subsection list.
         #
         if self._p_simple_string("]", silent=True) is not None:
+            if after_dot:
+                raise BadSyntax(value="section ends with a '.'")
             return sect_list
 
         # Now we either have one of our known strings. If sect_list is not
